@@ -77,9 +77,11 @@ def _r1(chk, repo):
     ss = repo.cls(f"{PDE}:SteadyStateLinearPDE")
     asm = repo.method(ss, "assemble")[1]
     p = func_params(asm)[1]
-    body = [_norm(s) for s in strip_docstring(asm.body)]
-    chk.add("C18-R1", f"{ss.qual}.assemble", body == [f"self.diff_op,self.rhs=self.PDE_form({p})"], site(repo, asm), "(diff_op, rhs) = PDE_form(parameter)",
-            f"assemble is {body}", asm)
+    from .common import method_effects
+    from ..pattern import norm as pn
+    eff = method_effects(repo, ss, asm)
+    okA = bool(eff) and all(e["kind"] in ("fall", "return") and e["stores"] == {"self.diff_op": pn(f"self.PDE_form({p})[0]"), "self.rhs": pn(f"self.PDE_form({p})[1]")} for e in eff)
+    chk.add("C18-R1", f"{ss.qual}.assemble", okA, site(repo, asm), "(diff_op, rhs) = PDE_form(parameter)", f"assemble does {eff}", asm)
     sv = repo.method(ss, "solve")[1]
     tb = _tbl(repo, ss, sv, ["hasattr(self,'diff_op')", "hasattr(self,'rhs')"], keep={"_solve_linear_system"})
     want = _ct("self._solve_linear_system(self.diff_op,self.rhs,self._linalg_solve,self._linalg_solve_kwargs)")
@@ -120,10 +122,13 @@ def _r2(chk, repo):
         b0 = {"u": "u"}
     asm = repo.method(td, "assemble_step")[1]
     t = func_params(asm)[1]
-    body = [_norm(s_) for s_ in strip_docstring(asm.body)]
-    ok = body == [f"self.diff_op,self.rhs,self.initial_condition=self.PDE_form(self._parameter,{t})"]
-    a0 = [_norm(s_) for s_ in strip_docstring(repo.method(td, "assemble")[1].body)]
-    ok = ok and a0 == [f"self._parameter={func_params(repo.method(td, 'assemble')[1])[1]}"]
+    from .common import method_effects
+    from ..pattern import norm as pn
+    body = method_effects(repo, td, asm)
+    CALLT = f"self.PDE_form(self._parameter,{t})"
+    ok = bool(body) and all(e["kind"] in ("fall", "return") and e["stores"] == {"self.diff_op": pn(CALLT + "[0]"), "self.rhs": pn(CALLT + "[1]"), "self.initial_condition": pn(CALLT + "[2]")} for e in body)
+    a0 = method_effects(repo, td, repo.method(td, "assemble")[1])
+    ok = ok and bool(a0) and all(e["kind"] in ("fall", "return") and e["stores"] == {"self._parameter": func_params(repo.method(td, 'assemble')[1])[1]} for e in a0)
     chk.add("C18-R2", f"{td.qual}.assemble_step", ok, site(repo, asm), "(diff_op, rhs, initial_condition) = PDE_form(parameter, t)", f"assemble_step is {body}; assemble is {a0}", asm)
     u = b0["u"]
     found = {}
@@ -238,7 +243,8 @@ def _r3(chk, repo):
     ok = not bad and not und
     chk.decide("C18-R3", f"{base.qual}._compare_grid", ok, not und, site(repo, cg), "None -> equal; same length -> elementwise all-equal; else different", "_compare_grid semantics changed", cg)
     ge = base.props.get("grids_equal")
-    ok = ge is not None and [_norm(s) for s in ge.getter.body] == ["returnself._grids_equal"]
+    from .common import closed_is
+    ok = ge is not None and closed_is(repo, base, ge.getter, "self._grids_equal")[0]
     chk.add("C18-R3", f"{base.qual}.@grids_equal", ok, site(repo, ge.getter) if ge else "", "reads the flag", "grids_equal does not read the flag")
     ss = repo.cls(f"{PDE}:SteadyStateLinearPDE")
     ob = repo.method(ss, "observe")[1]
